@@ -68,9 +68,12 @@ func (t Templates) ServeHTTP(w http.ResponseWriter, r *http.Request) (int, error
 		rb := httpserver.NewResponseBuffer(buf, w, shouldBuf)
 
 		// pass request up the chain to let another middleware provide us the template
-		code, err := t.Next.ServeHTTP(rb, r)
-		if !rb.Buffered() || code >= 300 || err != nil {
-			return code, err
+		// a handler may write its response and still return an error to be
+		// logged (status 0, e.g. fastcgi with stderr output): the buffered
+		// response must be delivered in that case too, and the error passed on.
+		code, nextErr := t.Next.ServeHTTP(rb, r)
+		if !rb.Buffered() || code >= 300 {
+			return code, nextErr
 		}
 
 		// create a new template
@@ -121,7 +124,7 @@ func (t Templates) ServeHTTP(w http.ResponseWriter, r *http.Request) (int, error
 		// use the proper status code, since ServeContent hard-codes 2xx codes...
 		http.ServeContent(rb.StatusCodeWriter(w), r, templateName, modTime, bytes.NewReader(buf.Bytes()))
 
-		return 0, nil
+		return 0, nextErr
 	}
 
 	return t.Next.ServeHTTP(w, r)
